@@ -25,8 +25,9 @@ class SimCapExceeded(BaseException):
     so that no `except Exception` in the code under test can swallow it."""
 
 
-class HarnessError(Exception):
-    """The harness itself misbehaved (never reported as a property violation)."""
+class HarnessError(BaseException):
+    """The harness itself misbehaved (never reported as a property violation).  BaseException so
+    that neither the code under test nor a step's error handling can mistake it for a client error."""
 
 
 class Sim:
@@ -199,6 +200,20 @@ class Transport:
         self._burst = {}  # key -> remaining transient replies
         self.record_bodies = True
 
+    def _deliver(self, req):
+        """Route to the world's handler; anything it raises is a harness bug, never a client-visible error."""
+        try:
+            reply = self.handler(req)
+        except (HarnessError, SimCapExceeded):
+            raise
+        except Exception as e:  # noqa: BLE001
+            import traceback
+
+            raise HarnessError('world handler raised: ' + ''.join(traceback.format_exception(type(e), e, e.__traceback__))[-1500:]) from e
+        if not isinstance(reply, Reply):
+            raise HarnessError(f'world handler returned {type(reply).__name__}')
+        return reply
+
     def request(self, method, url, headers=None, timeout=None, params=None, json=None, stream=False, **kw):
         sim = self.sim
         if kw:
@@ -277,7 +292,7 @@ class Transport:
                 else:
                     reply = Reply.js([{'kind': 'permanent', 'id': 'node.injected.rejected'}], status=500)
             elif f == 'ack_lost':
-                delivered = self.handler(req)
+                delivered = self._deliver(req)
                 sim.stats['fault:ack_lost'] += 1
                 rec['fault'] = 'ack_lost:' + directive.get('how', 'exc')
                 rec['delivered_status'] = delivered.status if delivered.exc is None else delivered.exc[0]
@@ -289,7 +304,7 @@ class Transport:
                 else:
                     reply = Reply.js([{'kind': 'permanent', 'id': 'node.injected.ack_lost'}], status=500)
         if reply is None:
-            reply = self.handler(req)
+            reply = self._deliver(req)
         if reply.exc is not None:
             name, msg = reply.exc
             rec['exc'] = name
